@@ -78,10 +78,22 @@ Definition key_set_addo (k : key) (a : addo) : key :=
 Definition key_set_rd (k : key) (b : bool) : key :=
   mkKey (k_name k) (k_class k) (k_type k) (k_addo k) (k_cd k) b.
 
+(* RequestMessage (request.rs): to_message - what the cache keys on - and
+   append_message - what stream transports send - are one serialisation
+   (append_message_impl, T1 request_one_serialisation); it drops an OPT record
+   of the base message and appends the RequestMessage's own, if a setter
+   created one (T1 request_base_opt_dropped).  [base_opt] / [own_opt]: DO bit
+   of the OPT record of the base message / of the RequestMessage, if any. *)
+Definition request_do (base_opt own_opt : option bool) : bool :=
+  match own_opt with Some d => d | None => false end.
+
 (* get_response_impl: `if dnssec_ok && !ad { ad = true }` then Key::new *)
 Definition key_of_request (name cls ty : N) (rd cd ad dnssec_ok : bool) : key :=
   let ad' := if dnssec_ok && negb ad then true else ad in
   mkKey name cls ty (addo_new ad' dnssec_ok) cd rd.
+
+Definition key_of_request_msg (name cls ty : N) (rd cd ad : bool) (base_opt own_opt : option bool) : key :=
+  key_of_request name cls ty rd cd ad (request_do base_opt own_opt).
 
 (* ---------- Messages ------------------------------------------------------ *)
 
@@ -148,10 +160,22 @@ Definition ttl_min (acc : N) (l : list rr) : N :=
 Definition ttl_min_opt (acc : N) (l : list rr) : N :=
   fold_left (fun a r => if negb (r_type r =? rtype_opt) then N.min a (r_ttl r) else a) l acc.
 
+(* Message::opt_rcode: the first OPT record of the additional section (if its
+   RDATA parses) contributes the upper eight bits of the rcode, which it keeps
+   in the top octet of its TTL field *)
+Definition first_opt (l : list rr) : option rr := find (fun r => r_type r =? rtype_opt) l.
+Definition opt_rcode (m : msg) : N :=
+  match first_opt (m_ar m) with
+  | Some r => if r_bad r then m_rcode m else (r_ttl r / 2 ^ 24) * 2 ^ opt_rcode_shift + m_rcode m
+  | None => m_rcode m
+  end.
+(* which rcode `validity` looks at (T1) *)
+Definition class_rcode (m : msg) : N := if validity_uses_opt_rcode then opt_rcode m else m_rcode m.
+
 (* the per-class cap, before the TTLs are taken into account *)
 Definition class_cap (c : config) (m : msg) : outcome N :=
   let base := cfg_field c cap_base in
-  match m_rcode m with
+  match class_rcode m with
   | 0 =>
       do cl <- classify_no_error m;
       Ok (match cl with
